@@ -81,6 +81,7 @@ def _is_failure_arg(u, a):
 def r19_2(run):
     pp = PP(run)
     sc = PU(run, '_status_client')
+    PROG = (names_defined_by(sc, lambda v: "['PROGRESS']" in src(v)) or ['prog'])[0]
     for u in class_units(run.idx, pp):
         for c in calls_in(u, 'self._maybe_notify_connected'):
             arg = c.args[0] if c.args else None
@@ -91,7 +92,7 @@ def r19_2(run):
             if ok:
                 g = cfg_of(sc)
                 for n in g.nodes_containing(c):
-                    gd = g.guarded_by(n, lambda t: isinstance(t, ast.Compare) and dotted(t.left) == 'prog' and isinstance(t.ops[0], (ast.Eq, ast.NotEq)) and const(t.comparators[0]) == 100)
+                    gd = g.guarded_by(n, lambda t: isinstance(t, ast.Compare) and dotted(t.left) == PROG and isinstance(t.ops[0], (ast.Eq, ast.NotEq)) and const(t.comparators[0]) == 100)
                     run.ob('R19.2', sc, c, 'success only at PROGRESS=100', any((lab == 'T') == isinstance(t.ast.ops[0], ast.Eq) for t, lab in gd), slot='prog-100',
                            message='launch success reachable without prog == 100')
                     gd2 = g.guarded_by(n, lambda t: isinstance(t, ast.Compare) and const(t.comparators[0]) == 'BOOTSTRAP')
@@ -116,8 +117,9 @@ def r19_2(run):
         for c2 in calls_in(u2, 'self._timeout_delayed_call.cancel'):
             run.ob('R19.2', u2, c2, 'the launch timeout is cancelled only on success', False, slot='cancel@%s' % u2.short, message='%s cancels the launch timeout' % u2.short)
     defs = local_defs(sc)
-    pd = defs.get('prog', [])
-    ok = len(pd) == 1 and pd[0][0] == 'expr' and src(pd[0][1]) == "int(kw['PROGRESS'])"
+    pd = defs.get(PROG, [])
+    kwn = names_defined_by(sc, lambda v: isinstance(v, ast.Call) and (dotted(v.func) or '').endswith('find_keywords'))
+    ok = len(pd) == 1 and pd[0][0] == 'expr' and len(kwn) == 1 and src(pd[0][1]) == "int(%s['PROGRESS'])" % kwn[0]
     run.ob('R19.2', sc, sc.node, 'progress is the PROGRESS field of the event', ok, slot='prog-source', message='prog = %s' % [src(d[1]) for d in pd if len(d) > 1])
     tc = PU(run, '_tor_connected')
     g = cfg_of(tc)
@@ -220,6 +222,11 @@ def r19_3(run):
 
 
 def r19_4(run):
+    la_ = run.idx.unit(MOD + '.launch')
+    FLAG = [n for n in names_defined_by(la_, lambda v: const(v) is True) if n in names_defined_by(la_, lambda v: const(v) is False)]
+    FLAG = FLAG[0] if len(FLAG) == 1 else 'user_set_data_directory'
+    PPN = (names_defined_by(la_, lambda v: isinstance(v, ast.Call) and dotted(v.func) == 'TorProcessProtocol') or ['process_protocol'])[0]
+    CCB = (names_defined_by(la_, lambda v: isinstance(v, ast.Call) and dotted(v.func) == PPN + '.when_connected') or ['connected_cb'])[0]
     cu = PU(run, 'cleanup')
     dels = [c for c in calls_in(cu) if dotted(c.func) == 'delete_file_or_tree']
     ok = False
@@ -232,7 +239,7 @@ def r19_4(run):
     la = run.idx.unit(MOD + '.launch')
     g = cfg_of(la)
     # user_set_data_directory is True iff the caller supplied a directory
-    defs = [(n, assign_to(n.ast, 'user_set_data_directory')) for n in g.real_nodes() if n.kind == 'stmt' and assign_to(n.ast, 'user_set_data_directory') is not None]
+    defs = [(n, assign_to(n.ast, FLAG)) for n in g.real_nodes() if n.kind == 'stmt' and assign_to(n.ast, FLAG) is not None]
     run.floor('R19.4', 'definitions of user_set_data_directory', len(defs), 2)
     for n, v in defs:
         gd = g.guarded_by(n, lambda t: isinstance(t, ast.Compare) and dotted(t.left) == 'data_directory' and is_none(t.comparators[0]))
@@ -245,13 +252,13 @@ def r19_4(run):
     regs = []
     for n in g.real_nodes():
         for a in node_asts(n):
-            if isinstance(a, ast.Assign) and any(dotted(t) == 'process_protocol.to_delete' for t in a.targets):
+            if isinstance(a, ast.Assign) and any(dotted(t) == PPN + '.to_delete' for t in a.targets):
                 regs.append((n, 'to_delete'))
             if isinstance(a, ast.Call) and callee_attr(a) == 'addSystemEventTrigger' and 'delete_file_or_tree' in src(a):
                 regs.append((n, 'trigger'))
     run.floor('R19.4', 'deletion registrations in launch', len(regs), 2)
     for n, kind in regs:
-        gd1 = g.guarded_by(n, lambda t: dotted(t) == 'user_set_data_directory')
+        gd1 = g.guarded_by(n, lambda t: dotted(t) == FLAG)
         gd2 = g.guarded_by(n, lambda t: isinstance(t, ast.Compare) and dotted(t.left) == 'data_directory' and is_none(t.comparators[0]))
         ok = any(lab == 'F' for _, lab in gd1) or any((lab == 'T') == isinstance(t.ast.ops[0], ast.Is) for t, lab in gd2)
         run.ob('R19.4', la, n.ast, 'a caller-supplied data directory is never registered for deletion (%s)' % kind, ok, slot='delete-guard:%s@%d' % (kind, regs.index((n, kind))),
@@ -269,11 +276,11 @@ def r19_4(run):
         ok = any((lab == 'T') == isinstance(t.ast.ops[0], ast.Is) for t, lab in gd)
         run.ob('R19.4', la, n.ast, 'a temporary directory is created only when none was supplied', ok, slot='mkdtemp-guard', message='mkdtemp not guarded')
     # launch waits for the connected notification of the protocol it spawned
-    wc = [c for c in calls_in(la) if dotted(c.func) == 'process_protocol.when_connected']
-    run.ob('R19.4', la, la.node, "launch's result is the process protocol's connected notification", len(wc) == 1 and any(isinstance(a, ast.Yield) and dotted(a.value) == 'connected_cb' for a in walk_unit(la)),
+    wc = [c for c in calls_in(la) if dotted(c.func) == PPN + '.when_connected']
+    run.ob('R19.4', la, la.node, "launch's result is the process protocol's connected notification", len(wc) == 1 and any(isinstance(a, ast.Yield) and dotted(a.value) == CCB for a in walk_unit(la)),
            slot='await-connected', message='launch does not await process_protocol.when_connected()')
     sp = [c for c in calls_in(la) if dotted(c.func) == 'reactor.spawnProcess']
-    ok = len(sp) == 1 and dotted(sp[0].args[0]) == 'process_protocol'
+    ok = len(sp) == 1 and dotted(sp[0].args[0]) == PPN
     run.ob('R19.4', la, la.node, 'exactly one process is spawned with that protocol', ok, slot='spawn-once', message='%d spawnProcess calls' % len(sp))
 
 
